@@ -4,9 +4,8 @@
 open Model
 open Helpers
 
-let coq_string (s : string) =
-  let rec go i acc = if i < 0 then acc else go (i - 1) (String (ascii_of_char s.[i], acc)) in
-  go (String.length s - 1) EmptyString
+let coq_name (s : string) : opname =
+  (List.init (String.length s) (fun i -> z_of_int (Char.code s.[i])))  (* extraction unboxes the single-constructor type *)
 
 let tbl : (string, Big_int_Z.big_int list -> res) Hashtbl.t = Hashtbl.create 64
 
@@ -14,7 +13,7 @@ let lookup (name : string) =
   match Hashtbl.find_opt tbl name with
   | Some f -> f
   | None ->
-    let code = opcode (coq_string name) in
+    let code = opcode (coq_name name) in
     let f = (fun args -> eval code args) in
     Hashtbl.replace tbl name f; f
 
